@@ -176,7 +176,7 @@ def gen_script(rng, solvers=L.SOLVERS, nops=(3, 9), p_mid=0.5, allow_modes=False
                     if inst and all(v not in (INF, -INF) for v in inst[-1]["lo"] + inst[-1]["hi"]):
                         cb = (inst[-1]["lo"], inst[-1]["hi"])
                 o_ = dict(op="SetConstraints", cons=gen_cons(rng, ndim, cb, push_out))
-                if kind != "POW" and rng.random() < 0.35 and not any(q["op"] == "SetStrictRanges" for q in ops):
+                if kind != "POW" and o_["cons"]["kind"] != "ident" and rng.random() < 0.35 and not any(q["op"] == "SetStrictRanges" for q in ops):
                     # installed through the keyword of the next Step: solver.Step(constraints=c) (one real call, two machine operations)
                     o_["defer"] = True
                     ops.append(o_)
@@ -254,3 +254,11 @@ def gen_tight_affine(rng):
     case["ops"] = cfg + [dict(op="Step", cb=False) for _ in range(rng.randint(5, 8) if kind == "POW" else rng.randint(3, 6))] + \
                   ([dict(op="Solve", cb=False)] if rng.random() < 0.3 else [])
     return case
+
+
+def fix_deferred(ops):
+    """a SetConstraints marked `defer` is handed to the Step that follows it directly; anywhere else it is an ordinary call"""
+    for i, o in enumerate(ops):
+        if o.get("defer") and not (i + 1 < len(ops) and ops[i + 1]["op"] == "Step"):
+            o.pop("defer")
+    return ops
